@@ -116,8 +116,10 @@ func (sm *ShardManager) cleanupRoutine(ls *loadedShard, backupFrequency, backupC
 			}
 		case <-timer.C:
 			sm.logger.Debug().Str("shardDir", shardDir).Msg("Unloading shard")
+			verifPause("cleanup:fired")
 			ls.mu.Lock()
 			// we commit to exiting the cleanup goroutine here
+			verifPause("cleanup:locked")
 			if ls.shard == nil {
 				ls.mu.Unlock()
 				sm.logger.Debug().Str("shardDir", shardDir).Msg("Shard already unloaded")
@@ -150,6 +152,7 @@ func (sm *ShardManager) cleanupRoutine(ls *loadedShard, backupFrequency, backupC
 			 * lock, DeleteCollectionShards takes them in the opposite order.
 			 * Requests that still get this entry see the nil shard. */
 			ls.mu.Unlock()
+			verifPause("cleanup:closed")
 			sm.shardLock.Lock()
 			if current, ok := sm.shardStore[shardDir]; ok && current == ls {
 				delete(sm.shardStore, shardDir)
@@ -169,6 +172,7 @@ func (sm *ShardManager) DoWithShard(collection models.Collection, shardId string
 	if err != nil {
 		return fmt.Errorf("could not load shard: %w", err)
 	}
+	verifPause("do:loaded")
 	ls.mu.RLock()
 	defer ls.mu.RUnlock()
 	// This nil check is necessary because the shard may have been unloaded
@@ -176,6 +180,7 @@ func (sm *ShardManager) DoWithShard(collection models.Collection, shardId string
 	if ls.shard == nil {
 		return fmt.Errorf("shard %s is already closed", shardId)
 	}
+	verifPause("do:running")
 	return f(ls.shard)
 }
 
@@ -187,6 +192,7 @@ func (sm *ShardManager) DeleteCollectionShards(collection models.Collection) ([]
 	// requests and this function in general should be fast.
 	sm.shardLock.Lock()
 	defer sm.shardLock.Unlock()
+	verifPause("delete:locked")
 	// ---------------------------
 	// Shard deletion is a best effort service, we don't return an error if
 	// something goes wrong with the deletion of a shard. This is because the
